@@ -262,6 +262,11 @@ func namePool(c *vf.Ctx) [][]string {
 	}
 	add([]string{"host", "local"})
 	add([]string{"\xC0\x0C", "\x00", "\x3F"})
+	// a backslash is an ordinary label byte: at the end of a non-final label (right before the dot of the text
+	// form), doubled, alone, at the start of the next label
+	for _, l := range [][]string{{"srv\\", "local"}, {"a\\\\", "b"}, {"\\", "x"}, {"a", "\\b"}, {"a\\", "\\", "c\\"}, {"x\\"}} {
+		add(l)
+	}
 	return pool
 }
 
